@@ -526,6 +526,14 @@ def token_consumers(repo, res, RULE='R38'):
                                                             ntext(t.value) == 'self' for t in n.targets)
                          and isinstance(n.value, ast.Constant) and n.value.value is False
                          for n in walk_no_nested(fi.node))
+            # a function that only hands out the owner's slots (self.primal / self.dual) is a reader of the owner's
+            # cache, not a cache of its own; a second cache shows as a store to some other attribute of self
+            own = [n for n in walk_no_nested(fi.node) if isinstance(n, ast.Assign) and any(
+                isinstance(t, ast.Attribute) and ntext(t.value) == 'self' and
+                t.attr not in ('primal', 'dual', 'pupdate', 'dupdate', 'solution') for t in n.targets)]
+            if not clears and not own:
+                res.inst({'function': fi.fq, 'tests token': tok, 'keeps_no_cache_of_its_own': True}, True)
+                continue
             res.functions.add(fi.fq)
             res.inst({'function': fi.fq, 'tests token': tok, 'also_clears_it': clears}, clears)
             if not clears:
